@@ -136,7 +136,7 @@ def h_kl(B, kind, Tmax, Nmax, mirror, nonlinear):
         B.is_true("no deadlock", True)
 
 
-def h_draw(B, Tmax, Nmax, mirror, geometric):
+def h_draw(B, Tmax, Nmax, mirror, geometric, napprox=0, mini_napprox=0):
     """the real draw_samples (real CG sampling on float64 fields) on every task: the distributed sample list is the
     single-process one.  Concrete differential run inside the solver-explored (T, n) configuration: every task has its own
     copy of the process-global random state, as separate MPI processes have."""
@@ -148,7 +148,7 @@ def h_draw(B, Tmax, Nmax, mirror, geometric):
     B.note(f"T={T} n={n}")
     saved, sc.Ctx.cur = sc.Ctx.cur, None      # concrete float run: the symbolic shims must stay inert
     try:
-        outs, ref, nref, ref_state = _draw_all(B, T, n, mirror, geometric)
+        outs, ref, nref, ref_state = _draw_all(B, T, n, mirror, geometric, napprox, mini_napprox)
     finally:
         sc.Ctx.cur = saved
     if outs is None:
@@ -164,22 +164,27 @@ def h_draw(B, Tmax, Nmax, mirror, geometric):
               all(outs[r][2] == ref_state for r in range(T)))
 
 
-def _draw_all(B, T, n, mirror, geometric):
+def _draw_all(B, T, n, mirror, geometric, napprox, mini_napprox):
     from nifty.cl import random as rnd
     from nifty.cl.minimization.kl_energies import draw_samples
     with rnd.Context(1234):
         dom = ift.RGSpace(4)
+        multi = bool(napprox or mini_napprox)     # the probing preconditioners need a MultiDomain
         R = ift.makeOp(ift.makeField(dom, np.array([1., 2., 0.5, 1.5]))) @ ift.ScalingOperator(dom, 1.).ptw("exp")
+        if multi:
+            R = R @ ift.FieldAdapter(dom, "a")
         data = ift.makeField(dom, np.array([0.3, -1.2, 2.0, 0.7]))
         lh = ift.GaussianEnergy(data=data, inverse_covariance=ift.ScalingOperator(dom, 4., float)) @ R
         H = ift.StandardHamiltonian(lh, ift.AbsDeltaEnergyController(1e-6, iteration_limit=30), prior_sampling_dtype=float)
         pos = ift.makeField(dom, np.array([0.1, -0.2, 0.3, 0.05]))
-        mini = ift.NewtonCG(ift.GradientNormController(iteration_limit=3)) if geometric else None
+        if multi:
+            pos = ift.MultiField.from_dict({"a": pos})
+        mini = ift.NewtonCG(ift.GradientNormController(iteration_limit=3), napprox=mini_napprox) if geometric else None
         base = rnd.getState()
 
         def run(comm):
-            sl = draw_samples(pos, H, mini, n, mirror, comm=comm)
-            return [np.array(s.val.val, copy=True) for s in sl.local_iterator()], sl.n_samples, rnd.getState()
+            sl = draw_samples(pos, H, mini, n, mirror, napprox=napprox, comm=comm)
+            return [np.array((s["a"] if multi else s).val.val, copy=True) for s in sl.local_iterator()], sl.n_samples, rnd.getState()
         ref, nref, ref_state = run(None)
         rnd.setState(base)
         states = [base] * T
@@ -206,6 +211,8 @@ def scenarios(tier, seed):
     for mirror in (False, True):
         for geo in (False, True):
             quick.append(("draw", {"Tmax": 3, "Nmax": 3, "mirror": mirror, "geometric": geo}))
+    quick.append(("draw", {"Tmax": 3, "Nmax": 3, "mirror": False, "geometric": False, "napprox": 2}))
+    quick.append(("draw", {"Tmax": 3, "Nmax": 3, "mirror": True, "geometric": True, "napprox": 0, "mini_napprox": 3}))
     thorough = [("draw", {"Tmax": 6, "Nmax": 5, "mirror": m_, "geometric": g_}) for m_ in (False, True) for g_ in (False, True)]
     thorough += [("kl", {"kind": "single", "Tmax": 7, "Nmax": 6, "mirror": False, "nonlinear": False}),
                 ("kl", {"kind": "single", "Tmax": 5, "Nmax": 8, "mirror": True, "nonlinear": True}),
